@@ -334,6 +334,15 @@ func (s *session) sendInReplyTo(msg *Message, inReplyTo *Message) error {
 }
 
 // dropAndReset will drop the send queue and reset the message store.
+// refreshStore re-reads the store from its backing storage under the send mutex: a sender must not
+// read or advance the counters of a store that is half-way through being refreshed.
+func (s *session) refreshStore() error {
+	s.sendMutex.Lock()
+	defer s.sendMutex.Unlock()
+
+	return s.store.Refresh()
+}
+
 func (s *session) dropAndReset() error {
 	s.sendMutex.Lock()
 	defer s.sendMutex.Unlock()
@@ -521,7 +530,7 @@ func (s *session) handleLogon(msg *Message) error {
 		resetStore = s.ResetOnLogon
 
 		if s.RefreshOnLogon {
-			if err := s.store.Refresh(); err != nil {
+			if err := s.refreshStore(); err != nil {
 				return err
 			}
 		}
